@@ -57,7 +57,21 @@ impl Certificate {
 		format!("{}_{}", self.crt_name, self.key_type)
 	}
 
-	pub fn get_identifier_from_str(&self, identifier: &str) -> Result<Identifier, Error> {
+	pub fn get_identifier_from_str(
+		&self,
+		identifier: &str,
+		wildcard: bool,
+	) -> Result<Identifier, Error> {
+		// A wildcard authorization carries the base name and the wildcard flag
+		// (RFC 8555, section 7.1.4): it belongs to the `*.` entry.
+		let full_name = if wildcard {
+			format!("*.{identifier}")
+		} else {
+			identifier.to_string()
+		};
+		if let Some(d) = self.identifiers.iter().find(|d| d.value == full_name) {
+			return Ok(d.clone());
+		}
 		let identifier = identifier.to_string();
 		for d in self.identifiers.iter() {
 			let val = match d.id_type {
@@ -142,9 +156,8 @@ impl Certificate {
 		file_name: &str,
 		proof: &str,
 		raw_proof: Option<String>,
-		identifier: &str,
+		identifier: &Identifier,
 	) -> Result<(ChallengeHookData, HookType), Error> {
-		let identifier = self.get_identifier_from_str(identifier)?;
 		let mut hook_data = ChallengeHookData {
 			challenge: identifier.challenge.to_string(),
 			identifier: identifier.value.to_owned(),
